@@ -209,6 +209,33 @@ func runC08(c *kit.Ctx) {
 				}
 			})
 			c.Check(okDel && nDel > 0, put, "delete-only-when-replaced", put.Pos(), "overlaps are deleted only on the replaced edge", "put deletes cached regions although the new region was not inserted")
+			// ... and when the new region went in, every overlap goes out: no way round the eviction loop avoids the deletion
+			kit.Instrs(put, func(in ssa.Instruction) {
+				call, ok := in.(*ssa.Call)
+				if !ok || !strings.HasSuffix(kit.CalleeName(call), ".Delete") {
+					return
+				}
+				var header *ssa.BasicBlock
+				for h := call.Block(); h != nil; h = h.Idom() {
+					isHeader := false
+					for _, pr := range h.Preds {
+						if h.Dominates(pr) {
+							isHeader = true
+						}
+					}
+					if isHeader && (h == call.Block() || inLoopOf(h, call.Block())) {
+						header = h
+						break
+					}
+				}
+				if header == nil {
+					return // a single deletion (not in a loop) is not the eviction of the overlaps
+				}
+				cyc := kit.FindCycle(put, func(b *ssa.BasicBlock) bool {
+					return b == call.Block() || (b != header && !inLoopOf(header, b))
+				}, nil)
+				c.Check(cyc == nil, put, "every-overlap-is-evicted", call.Pos(), "no way round the eviction loop skips the deletion of an overlap", "put can leave a region it found overlapping in the tree although the new region was inserted (the eviction loop skips some overlaps, e.g. those of the same age): two overlapping regions are cached, one of them not marked dead")
+			})
 		}
 	}
 
